@@ -119,3 +119,77 @@ Theorem eq_implies_hash a b : py_eq a b = true -> py_hash a = py_hash b.
 Proof. intros H. apply (eq_hash_aux (vsize a) a b (le_n _) H). Qed.
 End Hash.
 Print Assumptions eq_implies_hash.
+
+(* ---- C14_eq_equiv: == on parsed values is an equivalence relation ---- *)
+Section Equiv.
+Lemma prim_eqb_refl a : prim_eqb a a = true.
+Proof. destruct a; cbn; auto. apply Z.eqb_refl. destruct (list_eq_dec Nat.eq_dec s s); auto. Qed.
+Lemma prim_eqb_sym a b : prim_eqb a b = prim_eqb b a.
+Proof.
+  destruct a, b; cbn; auto. apply Z.eqb_sym.
+  destruct (list_eq_dec Nat.eq_dec s s0), (list_eq_dec Nat.eq_dec s0 s); auto; congruence.
+Qed.
+Lemma prim_eqb_trans a b c : prim_eqb a b = true -> prim_eqb b c = true -> prim_eqb a c = true.
+Proof.
+  destruct a, b, c; cbn; try discriminate; auto.
+  - rewrite !Z.eqb_eq. congruence.
+  - destruct (list_eq_dec Nat.eq_dec s s0), (list_eq_dec Nat.eq_dec s0 s1), (list_eq_dec Nat.eq_dec s s1);
+      auto; try discriminate; congruence.
+Qed.
+
+Lemma py_eq_unfold_L xs ys : py_eq (L xs) (L ys) = eq_list xs ys. Proof. reflexivity. Qed.
+Lemma py_eq_unfold_T xs ys : py_eq (T xs) (T ys) = eq_list xs ys. Proof. reflexivity. Qed.
+Lemma py_eq_unfold_O c d xs ys : py_eq (O c xs) (O d ys) = Nat.eqb c d && eq_list xs ys. Proof. reflexivity. Qed.
+
+Lemma py_eq_refl_aux : forall n a, (vsize a <= n)%nat -> py_eq a a = true.
+Proof.
+  induction n as [|n IH]; intros a Ha; [destruct a; cbn in Ha; lia|].
+  assert (HL : forall l, (lsize l <= n)%nat -> eq_list l l = true).
+  { induction l as [|x l IHl]; intros Hl; cbn [eq_list lsize] in *; auto.
+    assert (vsize x >= 1)%nat by (destruct x; cbn; lia).
+    rewrite IH by lia. rewrite IHl by lia. reflexivity. }
+  destruct a as [p|l|l|c l].
+  - apply prim_eqb_refl.
+  - rewrite py_eq_unfold_L. apply HL. change (S (lsize l) <= S n)%nat in Ha. lia.
+  - rewrite py_eq_unfold_T. apply HL. change (S (lsize l) <= S n)%nat in Ha. lia.
+  - rewrite py_eq_unfold_O, Nat.eqb_refl. apply HL. change (S (lsize l) <= S n)%nat in Ha. lia.
+Qed.
+Theorem py_eq_refl a : py_eq a a = true.
+Proof. apply (py_eq_refl_aux (vsize a)). lia. Qed.
+
+Lemma py_eq_sym_aux : forall n a b, (vsize a <= n)%nat -> py_eq a b = py_eq b a.
+Proof.
+  induction n as [|n IH]; intros a b Ha; [destruct a; cbn in Ha; lia|].
+  assert (HL : forall l m, (lsize l <= n)%nat -> eq_list l m = eq_list m l).
+  { induction l as [|x l IHl]; intros [|y m] Hl; cbn [eq_list lsize] in *; auto.
+    assert (vsize x >= 1)%nat by (destruct x; cbn; lia).
+    rewrite (IH x y) by lia. rewrite (IHl m) by lia. reflexivity. }
+  destruct a as [p|l|l|c l], b as [q|m|m|d m]; try reflexivity.
+  - apply prim_eqb_sym.
+  - rewrite !py_eq_unfold_L. apply HL. change (S (lsize l) <= S n)%nat in Ha. lia.
+  - rewrite !py_eq_unfold_T. apply HL. change (S (lsize l) <= S n)%nat in Ha. lia.
+  - rewrite !py_eq_unfold_O. rewrite (Nat.eqb_sym c d). f_equal. apply HL. change (S (lsize l) <= S n)%nat in Ha. lia.
+Qed.
+Theorem py_eq_sym a b : py_eq a b = py_eq b a.
+Proof. apply (py_eq_sym_aux (vsize a)). lia. Qed.
+
+Lemma py_eq_trans_aux : forall n a b c, (vsize a <= n)%nat -> py_eq a b = true -> py_eq b c = true -> py_eq a c = true.
+Proof.
+  induction n as [|n IH]; intros a b c Ha H1 H2; [destruct a; cbn in Ha; lia|].
+  assert (HL : forall l m k, (lsize l <= n)%nat -> eq_list l m = true -> eq_list m k = true -> eq_list l k = true).
+  { induction l as [|x l IHl]; intros [|y m] [|z k] Hl E1 E2; cbn [eq_list lsize] in *; auto; try discriminate.
+    apply andb_true_iff in E1. apply andb_true_iff in E2. destruct E1 as (A1 & A2), E2 as (B1 & B2).
+    assert (vsize x >= 1)%nat by (destruct x; cbn; lia).
+    rewrite (IH x y z) by (auto; lia). rewrite (IHl m k) by (auto; lia). reflexivity. }
+  destruct a as [p|l|l|ca l], b as [q|m|m|cb m]; try discriminate; destruct c as [r|k|k|cc k]; try discriminate.
+  - eapply prim_eqb_trans; eauto.
+  - rewrite py_eq_unfold_L in *. eapply HL; eauto. change (S (lsize l) <= S n)%nat in Ha. lia.
+  - rewrite py_eq_unfold_T in *. eapply HL; eauto. change (S (lsize l) <= S n)%nat in Ha. lia.
+  - rewrite py_eq_unfold_O in *. apply andb_true_iff in H1. apply andb_true_iff in H2.
+    destruct H1 as (A1 & A2), H2 as (B1 & B2). apply Nat.eqb_eq in A1. apply Nat.eqb_eq in B1. subst.
+    rewrite Nat.eqb_refl. eapply HL; eauto. change (S (lsize l) <= S n)%nat in Ha. lia.
+Qed.
+Theorem py_eq_trans a b c : py_eq a b = true -> py_eq b c = true -> py_eq a c = true.
+Proof. apply (py_eq_trans_aux (vsize a)). lia. Qed.
+End Equiv.
+Print Assumptions py_eq_trans.
